@@ -130,6 +130,33 @@ struct nav {
                 if (j < n) same(bi[j - i], j % w, j / w, "it-index");
             }
         }
+        // ---- conversions mutable -> const of iterators and locators keep the position
+        {
+            typedef typename W::const_t CW;
+            CW cv(v);
+            typename CW::iterator cb = cv.begin();
+            for (long i = 0; i <= n; ++i) {
+                typename CW::iterator ci(b + i);               // converting constructor
+                ++n_checks;
+                if (!(ci == cb + i)) bad("const-it-conversion-equal", vh::cat("const_iterator(begin+", i, ") != const_view.begin()+", i));
+                if ((ci - cb) != i) bad("const-it-conversion-distance", vh::cat("const_iterator(begin+", i, ") - cbegin = ", (long)(ci - cb)));
+                if ((cv.end() - ci) != n - i) bad("const-it-conversion-to-end", vh::cat("cend - const_iterator(begin+", i, ") = ", (long)(cv.end() - ci)));
+                if (i < n) same(*ci, i % w, i / w, "const-it-conversion-deref");
+                if (i > 0) { typename CW::iterator t = ci; --t; if (!(t == cb + (i - 1))) bad("const-it-conversion-decrement", vh::cat("--const_iterator(begin+", i, ")")); }
+            }
+            for (long y = 0; y < h; ++y)
+                for (long x = 0; x < w; ++x) {
+                    typename CW::xy_locator cl(v.xy_at(x, y));
+                    same(*cl, x, y, "const-locator-conversion");
+                    if (!(cl == cv.xy_at(x, y))) bad("const-locator-conversion-equal", vh::cat("(", x, ",", y, ")"));
+                    typename CW::x_iterator cx(v.x_at(x, y));
+                    same(*cx, x, y, "const-x-iterator-conversion");
+                    if ((cx - cv.row_begin(y)) != x) bad("const-x-iterator-conversion-distance", vh::cat("(", x, ",", y, ")"));
+                    typename CW::y_iterator cy(v.y_at(x, y));
+                    same(*cy, x, y, "const-y-iterator-conversion");
+                    if ((cy - cv.col_begin(x)) != y) bad("const-y-iterator-conversion-distance", vh::cat("(", x, ",", y, ")"));
+                }
+        }
         // reverse iterator round trip
         for (long i = 0; i <= n; ++i) {
             typename W::reverse_iterator ri = v.rbegin() + i;
